@@ -43,7 +43,8 @@ def gen_cases(tier, seed):
     for n in (1000, 10000) + ((100000,) if tier == "thorough" else (30000,)):
         for mode in ("no_grad", "non-requiring", "detached-mix", "no_grad-with-parameter", "inside-retain_grads", "no_grad-linear", "changing-scalars",
                      "nested-no_grad", "backward-inside-no_grad",
-                     "matmul-chain", "matmul-chain-no_grad-parameter", "dropout-noise", "frozen-net-rollout"):
+                     "matmul-chain", "matmul-chain-no_grad-parameter", "dropout-noise", "frozen-net-rollout",
+                     "concat-rolling-window", "stack-rolling-window", "linear-nobias-plain", "linear-nobias-frozen-no_grad"):
             cases.append({"kind": "untracked", "n": n, "mode": mode, "seed": int(rng.integers(2 ** 31))})
     cases.append({"kind": "weakref", "seed": 0})
     for n in (300, 1000) + ((3000,) if tier == "thorough" else ()):
@@ -245,7 +246,10 @@ def run_case(ns, mon, c):
         Wm = T(np.eye(8) * 0.5 + 0.0625, requires_grad=(c["mode"] == "matmul-chain-no_grad-parameter"))
         drop = ns.nn.Dropout(0.1); drop.train()
         net = ns.nn.Sequential(ns.nn.Linear(8, 8), ns.nn.Dropout(0.1), ns.nn.Tanh()); net.train(); net.freeze()
-        if c["mode"] in ("matmul-chain", "matmul-chain-no_grad-parameter", "dropout-noise", "frozen-net-rollout"):
+        Wl = T(np.eye(8) * 0.9)
+        lin_nb = ns.nn.Linear(8, 8, bias=False); lin_nb.freeze()
+        if c["mode"] in ("matmul-chain", "matmul-chain-no_grad-parameter", "dropout-noise", "frozen-net-rollout", "concat-rolling-window", "stack-rolling-window",
+                         "linear-nobias-plain", "linear-nobias-frozen-no_grad"):
             w = T(np.full((1, 8), 0.125))
         samples = []
         losses = [(par * par).sum() * float(k_ + 1) for k_ in range(10)] if c["mode"] == "backward-inside-no_grad" else []     # built before the block, kept alive
@@ -261,6 +265,13 @@ def run_case(ns, mon, c):
                 return sg.linear(w, W)                      # (1,8) carried through a layer whose weight requires grad
             if c["mode"] in ("matmul-chain", "matmul-chain-no_grad-parameter"):
                 return w @ Wm                               # a Markov chain p <- p @ T: the carried value only ever passes through matrix products
+            if c["mode"] == "concat-rolling-window":
+                return sg.concat([w[:, 1:], gfix.reshape((1, 8))[:, :1]], 1)     # window = concat([window[1:], newest]) of plain tensors
+            if c["mode"] == "stack-rolling-window":
+                rows = sg.unbind(w, 1)
+                return sg.stack(list(rows[1:]) + [rows[0] * 0.5], 1)
+            if c["mode"] in ("linear-nobias-plain", "linear-nobias-frozen-no_grad"):
+                return sg.tanh(sg.linear(w, Wl) if c["mode"] == "linear-nobias-plain" else lin_nb(w))   # no bias, nothing requires grad
             if c["mode"] == "dropout-noise":
                 return drop(w)                              # noise injection on a tensor that does not require grad
             if c["mode"] == "frozen-net-rollout":
@@ -285,7 +296,7 @@ def run_case(ns, mon, c):
                     w = body(w)
                     if (i + 1) % step == 0:
                         samples.append(mon.live_count() - base)
-        elif c["mode"] in ("no_grad", "no_grad-with-parameter", "no_grad-linear", "nested-no_grad", "backward-inside-no_grad", "matmul-chain-no_grad-parameter"):
+        elif c["mode"] in ("no_grad", "no_grad-with-parameter", "no_grad-linear", "nested-no_grad", "backward-inside-no_grad", "matmul-chain-no_grad-parameter", "linear-nobias-frozen-no_grad"):
             with sg.no_grad():
                 for i in range(n):
                     w = body(w)
